@@ -49,6 +49,7 @@ struct WorldCfg {
     bool judge_hooks = false;  // C14: routing of every request
     bool log_mismatch = false; // sched: mismatches go to the trace instead of stopping the run
     bool fault_mode = false;   // afail: the armed step may fail cleanly
+    bool hist_faults = false;  // hist (C07/C14 fault-injecting runs): an "arm" step makes request k of the next core call fail
     bool shared_world = false;   // sched: hooks are installed before the tasks start and the ledger is shared by all tasks
     bool judge_followup = false; // C17-C19: core edits on trees that went through a Utils call are judged too
     bool judge_independence = false; // C11: a tree not involved in a call must not change
@@ -97,6 +98,8 @@ class World {
     bool step_is_judged() const;
     bool nt_flag = false;       // the current step reached a non-trivial case (evidence: distinct_nontrivial)
     void mark_nontrivial() { stats.nontrivial++; nt_flag = true; }
+    long pending_arm = 0;         // set by an "arm" step, consumed by the next step
+    bool ledger_judged_from_target = false;  // afail: ledger violations at or after the faulted call are violations
     int force_judged_step = -1;   // afail: the faulted call is judged although the rest of the history is stage-setting
     int crash_judged_from = 1 << 30;  // afail: a crash at or after this step counts (library must remain usable)
     volatile int *live_judged = nullptr;  // progress word for crash attribution (1 while a judged call may be running)
